@@ -1,16 +1,22 @@
 #!/bin/bash
 # dev helper: run every claimed check against every stored seed (scratch copy of /repo + patch) and print which checks fire.
 # usage: seedmatrix.sh [seed-dir ...]   (default: all of /verif/seeded). Evidence goes to a scratch dir, never to /verif/evidence.
+# env: SM (scratch dir, default /tmp/sm), VSTATIC_BIN (default ./bin/vstatic), VSTATIC_VERIF (rule set's own known_findings.txt),
+#      REPO_REV (check the scratch copy out at this commit first: first-contact runs against the tree the seeds were made on),
+#      PATCH (file name inside the seed dir, default patch.diff)
 cd /verif
-seeds=${@:-$(ls seeded)}
+SM=${SM:-/tmp/sm}; BIN=${VSTATIC_BIN:-./bin/vstatic}; PATCH=${PATCH:-patch.diff}
+seeds=${@:-$(ls seeded | grep '^C')}
 for s in $seeds; do
   s=$(basename $s)
-  rm -rf /tmp/sm && mkdir -p /tmp/sm && cp -r /repo /tmp/sm/repo
-  if ! git -C /tmp/sm/repo apply /verif/seeded/$s/patch.diff 2>/dev/null; then echo "$s PATCH-DOES-NOT-APPLY"; continue; fi
-  out=$(VSTATIC_REPO=/tmp/sm/repo VSTATIC_EVIDENCE_DIR=/tmp/sm/ev ./bin/vstatic check-all 2>&1)
+  rm -rf $SM && mkdir -p $SM && cp -r /repo $SM/repo
+  if [ -n "${REPO_REV:-}" ]; then git -C $SM/repo checkout -q -f $REPO_REV || { echo "$s CHECKOUT-FAILED"; continue; }; fi
+  pf=/verif/seeded/$s/$PATCH; [ -f $pf ] || pf=/verif/seeded/$s/patch.diff
+  if ! git -C $SM/repo apply $pf 2>/dev/null; then echo "$s PATCH-DOES-NOT-APPLY"; continue; fi
+  out=$(VSTATIC_REPO=$SM/repo VSTATIC_EVIDENCE_DIR=$SM/ev $BIN check-all 2>&1)
   fired=$(echo "$out" | grep '^FIRED' | awk '{print $2}' | tr '\n' ' ')
   rules=$(echo "$out" | grep -oE '(VIOLATED|UNDECIDED) rule=[A-Z-]+' | sed 's/.*rule=//' | sort -u | tr '\n' ' ')
   keys=$(echo "$out" | grep -oE 'key=.*' | sort -u | head -4 | tr '\n' ';')
   echo "$s fired:[${fired% }] rules:[${rules% }] $keys"
 done
-rm -rf /tmp/sm
+rm -rf $SM
